@@ -91,6 +91,11 @@ def uses_all_inputs(ctx, rule, d, r):
             continue
         miss = want - v.D
         if miss:
+            # a return taken under a condition computed from the input, delivering a constant under that input's own mask (e.g. the
+            # shortcut for constant data): the input decides both whether this value is returned and which cells are missing
+            deps = frozenset().union(*[r.cond_deps.get(id(t_), frozenset()) for t_, p_ in r.return_conds.get(id(s), ())]) if r.return_conds.get(id(s)) else frozenset()
+            miss = frozenset(t for t in miss if not (t in v.M and t in deps))
+        if miss:
             ctx.violate(rule, con, d.module.rel, line_of(s), "the returned value does not depend on %s: that input is dropped from the computation" % tok_text(miss))
         else:
             ctx.hold(rule, con, d.module.rel, line_of(s), "depends on %s" % tok_text(want))
